@@ -38,6 +38,12 @@ TRemoveFather == IsEvent("RemoveFather") /\ RemoveFather(Ev.a[1], Ev.a[2]) /\ Ou
 TUnlink       == IsEvent("Unlink") /\ Unlink(Ev.a[1], Ev.a[2], "Unlink") /\ Out /\ ProjOK
 TDeleteNode   == IsEvent("DeleteNode") /\ DeleteNode(Ev.a[1]) /\ Out /\ ProjOK
 
+\* rootAt: the orientation read back is adopted and must meet the definition
+LoggedEdges == [id \in Keys(S.e) |-> LET x == S.e[CHOOSE i \in DOMAIN S.e : S.e[i][1] = id] IN <<x[2], x[3]>>]
+TRootAt == /\ IsEvent("RootAt")
+           /\ IF Ev.r = "ok" THEN RootAtTo(Ev.a[1], LoggedEdges) ELSE (Ev.a[1] \notin nodes /\ Raise /\ Out)
+           /\ ProjOK
+
 \* the answers are adopted; ValidExact / RootedExact judge them
 TQValid  == /\ IsEvent("QValid") /\ Ev.r \in {"T", "F"} /\ res' = Ev.r
             /\ cacheV' = Valid /\ UNCHANGED <<gvars, acyclic, cacheR>> /\ ProjOK
@@ -66,7 +72,7 @@ TQBelow ==
                      /\ SeqToSet(x[4]) = SubEdges(edges, x[1])
   /\ ProjOK
 
-TraceNext == TReset \/ TCreateNode \/ TAddSon \/ TAddFather \/ TLink \/ TRemoveSon \/ TRemoveFather \/ TUnlink
+TraceNext == TRootAt \/ TReset \/ TCreateNode \/ TAddSon \/ TAddFather \/ TLink \/ TRemoveSon \/ TRemoveFather \/ TUnlink
              \/ TDeleteNode \/ TQValid \/ TQRooted \/ TQFathers \/ TQLeaves \/ TQBelow
 TraceInit == Init /\ l = 1
 TraceSpec == TraceInit /\ [][TraceNext]_<<vars, l>>
